@@ -356,10 +356,43 @@ fn c04(a: &Args) -> Report {
             let mut s = SchedSpec::new(&format!("C04/sched/{mname}/{mode:?}"), mode, vec![Op::w(0, 1), Op::Rot, Op::w(1, 2)], clients);
             s.clock_choices = if *mname == "delete-closed" { 1 } else { 0 };
             s.bound = if thorough { 3 } else { 2 };
-            s.max_execs = if thorough { 40_000 } else { 2_500 };
-            s.lock_points = thorough;
+            s.max_execs = if thorough { 60_000 } else { 6_000 };
+            s.lock_points = true;
             s.read_points = thorough;
             sspecs.push(s);
+        }
+    }
+    // sharp instances: one data operation against one maintenance call, explored completely
+    for (mname, mop) in [("close", Op::TryClose), ("rot", Op::Rot), ("closebg", Op::CloseBg), ("free", Op::FreeExcess), ("fsync", Op::Fsync)] {
+        for (dname, dop) in [("W", COp::w(0, 10)), ("D", COp::D { k: 0, ts: 12 }), ("R", COp::R(0)), ("RA", COp::RA(0))] {
+            for mode in [IoMode::Inplace, IoMode::Background] {
+                let mut s = SchedSpec::new(&format!("C04/sched1/{dname}|{mname}/{mode:?}"), mode, vec![Op::w(0, 1), Op::Rot, Op::w(0, 2)], vec![vec![dop.clone()], vec![COp::M(mop)]]);
+                s.bound = if thorough { 3 } else { 2 };
+                s.max_execs = if thorough { 60_000 } else { 5_000 };
+                sspecs.push(s);
+            }
+        }
+    }
+    // no active blob: a data operation (which may create the active blob lazily) or a second
+    // lifecycle call against restore / create
+    let noactive = vec![Op::w(0, 1), Op::Rot, Op::w(0, 2), Op::TryClose];
+    for (mname, mop) in [("restore", Op::TryRestore), ("create", Op::TryCreate), ("restorebg", Op::RestoreBg)] {
+        let others = [
+            ("W", COp::w(0, 10)),
+            ("D", COp::D { k: 0, ts: 12 }),
+            ("R", COp::R(0)),
+            ("RA", COp::RA(0)),
+            ("restore", COp::M(Op::TryRestore)),
+            ("create", COp::M(Op::TryCreate)),
+        ];
+        for (dname, dop) in others {
+            for mode in [IoMode::Inplace, IoMode::Background] {
+                let mut s = SchedSpec::new(&format!("C04/sched1-noactive/{dname}|{mname}/{mode:?}"), mode, noactive.clone(), vec![vec![dop.clone()], vec![COp::M(mop)]]);
+                s.bound = if thorough { 3 } else { 2 };
+                s.max_execs = if thorough { 60_000 } else { 2_500 };
+                s.followup = vec![COp::w(1, 20), COp::R(1)];
+                sspecs.push(s);
+            }
         }
     }
     let sres = run_sched_specs(&sspecs, a.threads);
@@ -760,6 +793,21 @@ fn c08_instances(thorough: bool) -> Vec<SchedSpec> {
                     specs.push(s);
                 }
             }
+            // 2 clients x 1 operation: small enough to complete every bound
+            let ones = [COp::w(0, 0), COp::R(0), COp::C(0), COp::RA(0), COp::D { k: 0, ts: 0 }, COp::w(1, 0)];
+            for a in 0..ones.len() {
+                for b in a..ones.len() {
+                    if !matches!(ones[a], COp::W { .. } | COp::D { .. }) && !matches!(ones[b], COp::W { .. } | COp::D { .. }) {
+                        continue;
+                    }
+                    let mut clients = vec![vec![ones[a].clone()], vec![ones[b].clone()]];
+                    stamp_ts(&mut clients);
+                    let name = format!("C08/{pname}/{mode:?}/1x1/{}|{}", clients[0][0].short(), clients[1][0].short());
+                    let mut s = SchedSpec::new(&name, mode, prefix.clone(), clients);
+                    s.wcfg.max_data_in_blob = *max_data;
+                    specs.push(s);
+                }
+            }
             // 3 clients x 1 operation
             let singles = [COp::w(0, 0), COp::R(0), COp::D { k: 0, ts: 0 }, COp::RA(0), COp::w(1, 0)];
             for a in 0..singles.len() {
@@ -783,6 +831,27 @@ fn c08_instances(thorough: bool) -> Vec<SchedSpec> {
                         specs.push(s);
                     }
                 }
+            }
+        }
+    }
+    // one data operation against one blob switch (close, background close, rotation, restore):
+    // the blob holding the acknowledged record moves between "active" and the closed list while
+    // the query or mutation is in flight
+    let switches: Vec<(&str, Vec<Op>, Op)> = vec![
+        ("close", vec![Op::w(0, 1)], Op::TryClose),
+        ("closebg", vec![Op::w(0, 1)], Op::CloseBg),
+        ("rot", vec![Op::w(0, 1)], Op::Rot),
+        ("restore", vec![Op::w(0, 1), Op::TryClose], Op::TryRestore),
+        ("restorebg", vec![Op::w(0, 1), Op::TryClose], Op::RestoreBg),
+        ("create", vec![Op::w(0, 1), Op::TryClose], Op::TryCreate),
+    ];
+    for (sname, prefix, sop) in &switches {
+        for dop in [COp::R(0), COp::C(0), COp::RA(0), COp::w(0, 10), COp::D { k: 0, ts: 12 }] {
+            for mode in [IoMode::Inplace, IoMode::Background] {
+                let name = format!("C08/life/{sname}/{mode:?}/{}|{}", dop.short(), sop.short());
+                let mut clients = vec![vec![dop.clone()], vec![COp::M(sop.clone())]];
+                stamp_ts(&mut clients);
+                specs.push(SchedSpec::new(&name, mode, prefix.clone(), clients));
             }
         }
     }
@@ -818,28 +887,48 @@ fn known_file() -> Vec<evidence::KnownFinding> {
 fn granularities(specs: Vec<SchedSpec>, thorough: bool) -> Vec<SchedSpec> {
     let mut out = Vec::new();
     for s in specs {
-        let special = s.name.contains("backpressure") || s.name.contains("nodup");
+        let small = s.name.contains("/1x1/") || s.name.contains("/life/");
+        let special = s.name.contains("backpressure") || s.name.contains("nodup") || small;
         let mut fine = s.clone();
         fine.name = format!("{}/fine", s.name);
         fine.bound = if thorough { 2 } else { 1 };
-        fine.max_execs = if thorough { 40_000 } else if special { 6_000 } else { 700 };
+        fine.max_execs = if thorough { 40_000 } else if small { 1_200 } else if special { 3_000 } else { 300 };
         if special {
             fine.bound += 1;
         }
         out.push(fine);
+        if small && !thorough {
+            continue; // the fine granularity completes; no coarse twin needed
+        }
         let mut coarse = s.clone();
         coarse.name = format!("{}/coarse", s.name);
         coarse.lock_points = false;
         coarse.read_points = false;
         coarse.bound = if thorough { 3 } else { 2 };
-        coarse.max_execs = if thorough { 40_000 } else { 900 };
+        coarse.max_execs = if thorough { 40_000 } else { 300 };
         out.push(coarse);
     }
     out
 }
 
+/// The "thousands of clients" clause at the real constants: 1026 writers (channel capacity
+/// 1024 + 2) on an over-full blob, one directed schedule that brings every writer to its
+/// channel send while it holds the storage lock, then lets the worker and the senders go.
+fn c08_scale_instance() -> SchedSpec {
+    let clients: Vec<Vec<COp>> = (0..1026u64).map(|i| vec![COp::w((i % 200) as u8, 10 + i)]).collect();
+    let mut s = SchedSpec::new("C08/scale/1026-writers-capacity-1024/directed", IoMode::Inplace, vec![Op::w(201, 1)], clients);
+    s.wcfg.max_data_in_blob = 1;
+    s.gather_at_send = true;
+    s.bound = 0;
+    s.max_execs = 1;
+    s.keys = vec![0, 1, 199];
+    s.restart_at_end = false;
+    s
+}
+
 fn c08(a: &Args) -> Report {
-    let specs = granularities(c08_instances(a.tier == "thorough"), a.tier == "thorough");
+    let mut specs = granularities(c08_instances(a.tier == "thorough"), a.tier == "thorough");
+    specs.push(c08_scale_instance());
     let results = run_sched_specs(&specs, a.threads);
     let known = known_file();
     sched_report("C08", a, results, SCHED_RULE, &|v| {
@@ -929,13 +1018,15 @@ pub fn sched_debug(name: &str) -> i32 {
 }
 
 pub fn sched_trace(name: &str) -> i32 {
-    let specs = c08_instances(false);
+    let mut specs = c08_instances(false);
+    specs.push(c08_scale_instance());
     let spec = specs.iter().find(|s| s.name == name).expect("instance").clone();
     let (t, p, o) = sched::run_once(&spec, &[]);
     for l in t.steps_log.iter().rev().take(14).rev() {
         println!("{l}");
     }
     println!("end {:?} panics {:?} findings {:?}", t.end, p, o.findings);
+    println!("steps {} decisions {} judge {:?}", t.steps, t.decisions.len(), sched::judge(&spec, &t, &p, &o));
     0
 }
 
